@@ -116,10 +116,12 @@ Record state := mkS {
   rev : nat;                    (* its revision *)
   cvals : option amap;          (* registry.go:72 c.values[key]; None = no entry *)
   subs : list (list call);      (* :73 c.listeners[key], in registration order *)
-  nwatch : nat                  (* running watchStream goroutines for the key *)
+  nwatch : nat;                 (* running watchStream goroutines for the key *)
+  wlog : list bev               (* the store's change log since the last snapshot was read: what a watch created
+                                   `WithRev(rev+1)` for that snapshot's revision is sent first *)
 }.
 
-Definition init : state := mkS [] 1 None [] 0.
+Definition init : state := mkS [] 1 None [] 0 [].
 
 Definition cur (s : state) : amap := match cvals s with Some m => m | None => [] end.
 
@@ -162,23 +164,23 @@ Definition handle_changes (store : bool) (oa od : list key) (kvs : amap) (s : st
   match cvals s with
   | None =>
       mkS (etcd s) (rev s) (Some (to_map kvs))
-          (deliver (map add_call (order_by oa kvs)) (subs s)) (nwatch s)
+          (deliver (map add_call (order_by oa kvs)) (subs s)) (nwatch s) (wlog s)
   | Some vals =>
       let m := to_map kvs in
       let remove := order_by od (changed vals m) in
       let add := order_by oa (changed m vals) in
       mkS (etcd s) (rev s) (Some (if store then m else vals))
-          (deliver (map add_call add ++ map del_call remove) (subs s)) (nwatch s)
+          (deliver (map add_call add ++ map del_call remove) (subs s)) (nwatch s) (wlog s)
   end.
 
 (* handleWatchEvents :275-312, one event arriving on one stream *)
 Definition watch_put (k : key) (v : val) (s : state) : state :=
   mkS (etcd s) (rev s)
       (Some (match cvals s with Some vals => kset k v vals | None => [(k, v)] end))
-      (deliver [CAdd k v] (subs s)) (nwatch s).
+      (deliver [CAdd k v] (subs s)) (nwatch s) (wlog s).
 
 Definition watch_del (k : key) (s : state) : state :=
-  mkS (etcd s) (rev s) (option_map (kdel k) (cvals s)) (deliver [CDel k] (subs s)) (nwatch s).
+  mkS (etcd s) (rev s) (option_map (kdel k) (cvals s)) (deliver [CDel k] (subs s)) (nwatch s) (wlog s).
 
 Fixpoint iter (n : nat) (f : state -> state) (s : state) : state :=
   match n with O => s | S n' => iter n' f (f s) end.
@@ -199,14 +201,14 @@ Section Cluster.
   Definition step (s : state) (e : ev) : state :=
     match e with
     | Put k v d =>
-        let s1 := mkS (kset k v (etcd s)) (S (rev s)) (cvals s) (subs s) (nwatch s) in
+        let s1 := mkS (kset k v (etcd s)) (S (rev s)) (cvals s) (subs s) (nwatch s) (wlog s ++ [BPut k v]) in
         (* every open stream of the prefix receives the event *)
         if d && under k then iter (nwatch s) (watch_put k v) s1 else s1
     | Del k d =>
         match kget k (etcd s) with
         | None => s                                   (* deleting an absent key is not an event *)
         | Some _ =>
-            let s1 := mkS (kdel k (etcd s)) (S (rev s)) (cvals s) (subs s) (nwatch s) in
+            let s1 := mkS (kdel k (etcd s)) (S (rev s)) (cvals s) (subs s) (nwatch s) (wlog s ++ [BDel k]) in
             if d && under k then iter (nwatch s) (watch_del k) s1 else s1
         end
     | Reload oa od =>
@@ -214,7 +216,7 @@ Section Cluster.
         match subs s with
         | [] => s
         | _ => let s1 := handle_changes store oa od (snapshot_of s) s in
-               mkS (etcd s1) (rev s1) (cvals s1) (subs s1) 1
+               mkS (etcd s1) (rev s1) (cvals s1) (subs s1) 1 []
         end
     | Subscribe oc oa od =>
         (* Registry.Monitor :44-54: a cluster that already exists replays getCurrent to the new
@@ -223,17 +225,25 @@ Section Cluster.
                       | [] => []
                       | _ => map add_call (order_by oc (cur s))
                       end in
-        let s1 := mkS (etcd s) (rev s) (cvals s) (subs s ++ [replay]) (nwatch s) in
+        let s1 := mkS (etcd s) (rev s) (cvals s) (subs s ++ [replay]) (nwatch s) (wlog s) in
         let s2 := handle_changes store oa od (snapshot_of s1) s1 in
-        mkS (etcd s2) (rev s2) (cvals s2) (subs s2) (S (nwatch s))
+        mkS (etcd s2) (rev s2) (cvals s2) (subs s2) (S (nwatch s)) []
     | Batch items =>
         (* every open stream of the prefix receives the response (the events under the prefix) *)
-        let s1 := mkS (fold_left bev_step items (etcd s)) (length items + rev s) (cvals s) (subs s) (nwatch s) in
+        let s1 := mkS (fold_left bev_step items (etcd s)) (length items + rev s) (cvals s) (subs s) (nwatch s) (wlog s ++ items) in
         iter (nwatch s) (apply_batch (filter (fun b => under (bkey b)) items)) s1
     | GetFail =>
         (* load :145-158: the attempt had its own context (context.WithTimeout per iteration, cancelled right
            after), the error is logged, the loop sleeps coolDownInterval and tries again: nothing is kept *)
         s
+    | Rewatch =>
+        (* watchStream :235-273 returns false on a closed channel / a cancel response; watch :227-233 calls it
+           again with the SAME rev (the revision of its load): the new stream is created WithRev(rev+1) and the
+           server first sends what was committed since (under the prefix), whether or not it was seen before *)
+        match nwatch s with
+        | O => s
+        | S _ => apply_batch (filter (fun b => under (bkey b)) (wlog s)) s
+        end
     end.
 
   Definition run_from (s : state) (h : list ev) : state := fold_left step h s.
